@@ -94,7 +94,8 @@ CLAIMED = {
         'DESIGN.md §4 C16'),
     "C17": (
         "TLC model checking of Heartbeat.tla (two stamps, two timers over integer time; invariants SendIdle/Detect/"
-        "NotEarly/AnyTraffic/Off, three bug-switch counterexamples) + real-time sessions of the real client on the mock "
+        "NotEarly/AnyTraffic/Off, three bug-switch counterexamples) + the same invariants shown inductive by Apalache for "
+        "every interval, resolution, slack and unbounded time (HeartbeatInd.tla) + real-time sessions of the real client on the mock "
         "transport, every step time-stamped from one monotonic clock, validated by TLC against HeartbeatTrace.tla",
         "TLC checks for h in {0,1,2} s (thorough also 3; 250 ms ticks, horizon 6 s / 8 s, timers up to one tick early or "
         "late) and EVERY pattern of server bytes and application sends that an idle connection writes within h, that 2h of "
